@@ -51,6 +51,7 @@ import (
 	"github.com/oxia-db/oxia/server/wal"
 
 	"verif/harness/internal/hx"
+	"verif/harness/internal/kvsafe"
 )
 
 const sessionPrefix = "__oxia/session/"
@@ -274,7 +275,7 @@ func newNodeDirs() *node {
 	dir := filepath.Join(base, fmt.Sprintf("h_sessions_%d_%d", os.Getpid(), nodeCounter))
 	nodeMu.Unlock()
 	hx.Must(os.MkdirAll(dir, 0o755))
-	inner, err := kv.NewPebbleKVFactory(&kv.FactoryOptions{DataDir: filepath.Join(dir, "db"), CacheSizeMB: 1})
+	inner, err := kvsafe.New(&kv.FactoryOptions{DataDir: filepath.Join(dir, "db"), CacheSizeMB: 1})
 	hx.Must(err)
 	n := &node{dir: dir, g: &gate{}}
 	n.kvf = &gateFactory{inner: inner, g: n.g}
